@@ -55,7 +55,7 @@ func newTypeEnv(pkg *types.Package) *TypeEnv {
 		if p == pkg {
 			return ""
 		}
-		return p.Name()
+		return p.Path()
 	}
 	return te
 }
@@ -305,11 +305,26 @@ func (te *TypeEnv) elemHeap(et types.Type) (string, *Sort) {
 	return "H:" + te.typeStr(et), arraySort(sortInt, arraySort(sortInt, te.sortOf(et)))
 }
 
-func (te *TypeEnv) mapHeaps(mt *types.Map) (dom string, doms *Sort, val string, vals *Sort) {
+// mapHeaps names the heaps of a map. Maps are split into regions by the struct field that
+// owns them (region = "Struct.field"); the engine checks that every map operation reads its
+// map directly from such a field and that maps are only ever created into one (see regionOf),
+// so maps owned by different fields never alias.
+func (te *TypeEnv) mapHeaps(mt *types.Map, region string) (dom string, doms *Sort, val string, vals *Sort) {
 	k := te.sortOf(mt.Key())
 	v := te.sortOf(mt.Elem())
-	n := te.typeStr(mt)
+	n := region
+	if n == "" {
+		n = te.typeStr(mt)
+	}
 	return "MD:" + n, arraySort(sortInt, arraySort(k, sortBool)), "MV:" + n, arraySort(sortInt, arraySort(k, v))
+}
+
+func (te *TypeEnv) mapLenHeap(mt *types.Map, region string) (string, *Sort) {
+	n := region
+	if n == "" {
+		n = te.typeStr(mt)
+	}
+	return "ML:" + n, arraySort(sortInt, sortInt)
 }
 
 // classify computes which named struct types are object-like (only reached via
